@@ -228,6 +228,44 @@ func checkC05Cancel(x *Exec, c *Case) ([]Violation, bool) {
 	return viol, ran > 0
 }
 
+// addManyParams inserts, right behind the startup step, a statement with as
+// many parameters as the protocol's 16-bit count can express and a Bind that
+// supplies all of them (mostly NULL or empty, so that the message stays within
+// the 1 MiB limit of these cases).
+func addManyParams(r *Rand, c *Case) {
+	if len(c.Conns) == 0 || len(c.Conns[0].Steps) == 0 {
+		return
+	}
+	key := "kmany"
+	c.Programs[key] = &Program{Stmts: []*StmtProg{{PP: true, Ops: []Op{{K: "complete", Tag: "MANY"}}}}}
+	n := r.PickInt(65535, 65535, 65534, 32768)
+	b := pgwire.FMsg{K: "B", S1: "pmany", S2: "smany", Params: make([]pgwire.Param, n)}
+	for i := range b.Params {
+		switch r.Intn(4) {
+		case 0:
+			b.Params[i] = pgwire.Param{V: []byte{}}
+		case 1:
+			b.Params[i] = pgwire.Param{V: []byte(r.Ident(r.Range(1, 3)))}
+		default:
+			b.Params[i] = pgwire.Param{Null: true}
+		}
+	}
+	switch r.Intn(3) {
+	case 1:
+		b.PFmt = []int16{int16(r.Intn(2))}
+	case 2:
+		b.PFmt = make([]int16, n)
+		for i := range b.PFmt {
+			b.PFmt[i] = int16(r.Intn(2))
+		}
+	}
+	msgs := []pgwire.FMsg{{K: "P", S1: "smany", S2: fmt.Sprintf("%s $%d", key, n)}, b, {K: "E", S1: "pmany"}, {K: "S"}}
+	cc := &c.Conns[0]
+	steps := append([]Step{}, cc.Steps[:1]...)
+	steps = append(steps, Step{Msgs: msgs})
+	cc.Steps = append(steps, cc.Steps[1:]...)
+}
+
 func init() {
 	// ------------------------------------------------------------------ C05
 	register(&Prop{
@@ -311,7 +349,7 @@ func init() {
 	// ------------------------------------------------------------------ C08
 	register(&Prop{
 		ID: "C08", Level: "exploration", QuickS: 25, ThoroughS: 420,
-		Rule:       "seeded extended-protocol histories over statements with 0-5 declared parameter types and typed columns: Bind messages with NULL / empty / NUL-containing / multi-KiB values, parameter-format lists of length 0, 1 and n, result-format lists of length 0, 1 and n, and 0-3 other messages (Describe, Parse of other names with long texts, simple queries, stray CopyData) between Bind and Execute; the statement function records count, Value(), Format() and Scan(declared oid) of every parameter; compared with the reference model and the independent codecs, including the RowDescription/DataRow formats of the portal and the ParameterDescription of the statement; non-trivial = a statement function ran with at least one parameter; distinct = distinct case content hashes",
+		Rule:       "seeded extended-protocol histories over statements with 0-5 declared parameter types and typed columns: Bind messages with NULL / empty / NUL-containing / multi-KiB values, parameter-format lists of length 0, 1 and n, result-format lists of length 0, 1 and n, and 0-3 other messages (Describe, Parse of other names with long texts, simple queries, stray CopyData) between Bind and Execute; the statement function records count, Value(), Format() and Scan(declared oid) of every parameter; compared with the reference model and the independent codecs, including the RowDescription/DataRow formats of the portal and the ParameterDescription of the statement; 1 in 40 cases adds a $65535 statement bound with 65535/65534/32768 parameters under a 1 MiB limit; non-trivial = a statement function ran with at least one parameter; distinct = distinct case content hashes",
 		Components: e1Components, Assumptions: commonAssumptions,
 		Gen: func(r *Rand, tier string) *Case {
 			if r.Chance(1, 10) {
@@ -320,7 +358,14 @@ func init() {
 				return genConcurrent(r, r.Range(2, 3), histOpts{extended: true, params: true, binary: true, between: true, maxUnits: 4}, 16384)
 			}
 			c := &Case{Server: ServerCfg{Limit: r.PickInt(4096, 16384, 65536, 65536)}}
+			many := r.Chance(1, 40)
+			if many {
+				c.Server.Limit = 1 << 20
+			}
 			genHistory(r, c, histOpts{extended: true, simple: r.Chance(1, 4), params: true, binary: true, between: true, bigValues: true, closes: r.Chance(1, 4), maxUnits: units(tier, 6)})
+			if many {
+				addManyParams(r, c)
+			}
 			return c
 		},
 		Check: func(x *Exec, c *Case) ([]Violation, bool) {
@@ -342,7 +387,7 @@ func init() {
 	// ------------------------------------------------------------------ C09
 	register(&Prop{
 		ID: "C09", Level: "exploration", QuickS: 25, ThoroughS: 420,
-		Rule:       "seeded sessions whose statements write rows over bool/int2/int4/int8/oid/float4/float8/text/varchar/bytea/uuid/date/timestamp/timestamptz columns with boundary and random values (min/max, +-0, NaN, +-Inf, empty and multi-byte strings, empty and NUL-containing bytea, zero UUID, text/bytea values of 4090-70000 bytes) in the Go representations a handler would use (native values, pointers, pgtype structs, and Go strings holding the text form of int4/int8/uuid values, which only the text format can encode), text format (simple protocol) and per-column text/binary result formats (extended protocol), SQL NULL written as untyped nil, typed nil pointer or invalid pgtype value in any position; the same OID is encoded from different Go types in varying order within a connection; every DataRow is decoded by the independent codecs; non-trivial = at least one DataRow was produced and decoded; distinct = distinct case content hashes",
+		Rule:       "seeded sessions whose statements write rows over bool/int2/int4/int8/oid/float4/float8/text/varchar/bytea/uuid/date/timestamp/timestamptz/name/bpchar/json/jsonb columns with boundary and random values (min/max, +-0, NaN, +-Inf, empty and multi-byte strings, empty and NUL-containing bytea, zero UUID, text/bytea values of 4090-70000 bytes) in the Go representations a handler would use (native values, pointers, pgtype structs, and Go strings holding the text form of int4/int8/uuid values, which only the text format can encode), text format (simple protocol) and per-column text/binary result formats (extended protocol), SQL NULL written as untyped nil, typed nil pointer or invalid pgtype value in any position; the same OID is encoded from different Go types in varying order within a connection; every DataRow is decoded by the independent codecs; non-trivial = at least one DataRow was produced and decoded; distinct = distinct case content hashes",
 		Components: e1Components, Assumptions: commonAssumptions,
 		Gen: func(r *Rand, tier string) *Case {
 			if r.Chance(1, 10) {
@@ -352,7 +397,7 @@ func init() {
 			}
 			c := &Case{Server: ServerCfg{Limit: smallLimit(r)}}
 			r.Large = true
-			genHistory(r, c, histOpts{manyRows: true, simple: true, extended: true, binary: true, rich: true, typedNull: true, multi: true, abuse: r.Chance(1, 3), maxUnits: units(tier, 6)})
+			genHistory(r, c, histOpts{manyRows: true, simple: true, extended: true, binary: true, rich: true, docs: true, typedNull: true, multi: true, abuse: r.Chance(1, 3), maxUnits: units(tier, 6)})
 			return c
 		},
 		Check: func(x *Exec, c *Case) ([]Violation, bool) {
